@@ -2,13 +2,19 @@
 """Imports the sub-agents' seeded changes from /tmp/seed_Cxx into seeded/Cxx-k/."""
 import json, os, shutil, sys, re
 VERIF = os.path.dirname(os.path.dirname(os.path.abspath(__file__)))
-for pid in sys.argv[1:]:
-    d = '/tmp/seed_%s' % pid
+args = sys.argv[1:]
+prefix, offset = '/tmp/seed_', 0
+if '--from' in args:
+    i = args.index('--from'); prefix = args[i + 1]; del args[i:i + 2]
+if '--offset' in args:
+    i = args.index('--offset'); offset = int(args[i + 1]); del args[i:i + 2]
+for pid in args:
+    d = prefix + pid
     for k in (1, 2, 3):
         diff, demo, meta = [os.path.join(d, n % k) for n in ('seed%d.diff', 'demo%d.py', 'meta%d.json')]
         if not (os.path.exists(diff) and os.path.exists(demo) and os.path.exists(meta)):
             continue
-        dst = os.path.join(VERIF, 'seeded', '%s-%d' % (pid, k))
+        dst = os.path.join(VERIF, 'seeded', '%s-%d' % (pid, k + offset))
         os.makedirs(dst, exist_ok=True)
         shutil.copy(diff, os.path.join(dst, 'patch.diff'))
         text = open(demo).read()
